@@ -43,6 +43,7 @@ import json
 import os
 from typing import Any, Dict, List, Optional, Tuple
 
+import gentie
 import vlib
 
 NAMES2 = ["a", "b"]
@@ -778,6 +779,9 @@ def run(ctx: vlib.Ctx):
                       found_input=False)
     elif disagreements:
         ctx.notes.append(f"{len(disagreements)} model/impl disagreements (first field: {disagreements[0]['field']})")
+    # generated tie: DiffNode.status is re-translated from the current source and proved equal to
+    # Util/Diff.v `nstatus` (coq/Gen/Equiv_diff.v)
+    gentie.report(ctx)
 
 
 def _law_class(problem: str) -> str:
